@@ -279,6 +279,8 @@ impl<'a> FilterCommentProcessor<'a> {
 
     fn ignore_trivia(&self, trivia: &Trivia) -> bool {
         let content = trivia.read(self.original_code);
+        // a line comment in a file with CRLF line endings keeps the carriage return
+        let content = content.strip_suffix('\r').unwrap_or(content);
         self.except.iter().any(|pattern| pattern.is_match(content))
     }
 }
